@@ -103,7 +103,7 @@ _PURE_BUILTINS = {"len": len, "abs": abs, "max": max, "min": min, "round": round
                   "any": any, "all": all, "sum": sum, "range": range, "enumerate": enumerate, "zip": zip,
                   "list": list, "tuple": tuple, "set": set, "frozenset": frozenset, "dict": dict,
                   "int": int, "float": float, "str": str, "bool": bool, "repr": repr, "reversed": reversed,
-                  "type": type, "hasattr": None, "id": id, "format": format, "divmod": divmod, "ord": ord, "chr": chr}
+                  "type": type, "hasattr": None, "id": id, "format": format, "divmod": divmod, "ord": ord, "chr": chr, "callable": callable}
 
 
 def _pure_callables():
@@ -752,6 +752,8 @@ class Interp:
                 return getattr(base, m)(*args)
             if base is dict and m == "fromkeys":
                 return dict.fromkeys(*args)
+            if isinstance(base, Synth) and callable(getattr(base, m, None)) and getattr(getattr(base, m), "_dl_lambda", False):
+                return getattr(base, m)(*args)        # a callback/provider the checker stored on a host object
             if getattr(base, "__dl_native__", False):
                 # a recorder object handed in by the checker (fake Path ...): its methods are the checker's own code
                 return getattr(base, m)(*args, **kwargs)
